@@ -150,6 +150,9 @@ class C06(Prop):
             return f"uncertainty depends on the forecast column: {uncs}"
         return None
 
+    def extra_coverage(self):
+        return {"repair_tie_skipped": getattr(dc.compare_rows, "skipped", 0)}
+
     def nontrivial(self, case, io):
         return "rows" in io and len(set(case["y"])) > 1 and any(len(set(c)) > 1 for c in case["cols"])
 
